@@ -68,7 +68,7 @@ func genCase(t *rapid.T) Case {
 	if err != nil {
 		panic(err)
 	}
-	return Case{G: *g, Text: text, Route: rapid.IntRange(0, int(model.NumRoutes)-1).Draw(t, "route"), Poison: rapid.IntRange(0, 3).Draw(t, "poison") == 0, Deep: rapid.SampledFrom([]int{0, 0, 0, 0, 0, 0, 0, 0, 0, 0, 0, 0, 0, 0, 0, 0, 0, 0, 0, 0, 0, 0, 0, 0, 5, 16, 31, 32, 33, 64, 65, 130, 257}).Draw(t, "deep")}
+	return Case{G: *g, Text: text, Route: rapid.IntRange(0, int(model.NumRoutes)-1).Draw(t, "route"), Poison: rapid.IntRange(0, 3).Draw(t, "poison") == 0, Deep: rapid.SampledFrom([]int{0, 0, 0, 0, 0, 0, 0, 0, 0, 0, 0, 0, 0, 0, 0, 0, 0, 0, 0, 0, 0, 0, 0, 0, 5, 16, 31, 32, 33, 64, 65, 130, 257, 999, 1000, 1030}).Draw(t, "deep")}
 }
 
 func same(what string, want *model.G, got *model.G) error {
